@@ -63,16 +63,22 @@ pub fn set_lookup_wires<
         // Compute multiplicities.
         let mut multiplicities = vec![0; lut_len];
 
-        let table_value_to_idx: HashMap<u16, usize> = common_data.luts[lut_index]
+        // A table may list an input several times with different outputs: the multiplicity belongs to the entry
+        // holding the looked-up (input, output) PAIR, which is what the lookup argument compares.
+        let table_value_to_idx: HashMap<(u16, u16), usize> = common_data.luts[lut_index]
             .iter()
             .enumerate()
-            .map(|(i, (inp_target, _))| (*inp_target, i))
+            .map(|(i, pair)| (*pair, i))
             .collect();
 
-        for (inp_target, _) in prover_data.lut_to_lookups[lut_index].iter() {
+        for (inp_target, out_target) in prover_data.lut_to_lookups[lut_index].iter() {
             let inp_value = pw.get_target(*inp_target);
+            let out_value = pw.get_target(*out_target);
             let idx = table_value_to_idx
-                .get(&u16::try_from(inp_value.to_canonical_u64()).unwrap())
+                .get(&(
+                    u16::try_from(inp_value.to_canonical_u64()).unwrap(),
+                    u16::try_from(out_value.to_canonical_u64()).unwrap(),
+                ))
                 .unwrap();
 
             multiplicities[*idx] += 1;
